@@ -11,7 +11,8 @@ CHECKS = {
  "C01": dict(cat="model_checking", tech="TLA+ tableau machine (CliffordMachine) + TLC: exhaustive state enumeration as inputs, batch trace validation of returned circuits",
    text="Inputs are the TLC-enumerated reachable states of the tableau machine (all signed states n<=3, all groups n=4 (quick) / all signed states n=4 (thorough), "
         "members of every LC class for n=5,6) in every input format on every connectivity; each returned circuit is validated as a behaviour of CliffordMachine whose final signed group must equal the request. "
-        "Exhaustive for small n, class-complete but sampled in layers/signs for n=5,6.",
+        "Exhaustive for small n, class-complete but sampled in layers/signs for n=5,6. Design-level Pipeline.tla (real tables, every sound layer) model-checked for n=2,3. "
+        "The harness acts as a caller with state: sign sweeps in one process, re-used Stabilizer objects, hostile mutation of every returned circuit, later modification of returned circuits detected.",
    note=TLC_BASE, ref="5 (C01), 4.4"),
  "C02": dict(cat="model_checking", tech="TLA+ trace validation: guard of CliffordMachine!GateStep = documented coupling graph; exhaustive over shipped circuits",
    text="The spec's two-qubit action is enabled only on pairs of the coupling graph transcribed from the documentation; every shipped table/MUB circuit (exhaustive), composed API outputs for every class x connectivity, "
@@ -21,11 +22,13 @@ CHECKS = {
    text="Same TLC-generated inputs as C01; the machine is loaded with the requested signed group and must end with every group element Z-type; the circuit for a second sign vector must be identical; the spec inverts the circuit itself.",
    note=TLC_BASE, ref="5 (C03)"),
  "C04": dict(cat="model_checking", tech="TLA+ trace validation with cost/depth bookkeeping in the machine; class determined by the spec (ClassIds)",
-   text="Every class of every configuration (5962 pairs), several locally-equivalent presentations each, three APIs: machine bookkeeping (cost, ASAP two-qubit depth) must equal the lookup metadata of the class the SPEC assigns to the target; observed pairs single-valued per class.",
-   note=TLC_BASE + "; class ids via LCClass<n>(id).get_graph() (validated by C06)", ref="5 (C04)"),
+   text="Every class of every configuration (5962 pairs), several locally-equivalent presentations each, three APIs: machine bookkeeping (cost, ASAP two-qubit depth) must equal the lookup metadata of the class the SPEC assigns to the target; observed pairs single-valued per class. The table line of a class is found by class key (independent of class ids); "
+        "the graph state of every table line is requested on its own connectivity as well.",
+   note=TLC_BASE, ref="5 (C04)"),
  "C05": dict(cat="model_checking", tech="TLC breadth-first search of the class-level quotient (Optimality.tla, VIEW = class key): BFS level = minimal two-qubit count over all competitor circuits",
    text="Universally quantified competitor circuits are decided by exhaustive BFS in the class-level model for all 20 coupling graphs; the actual cost of every table circuit is measured by the tableau machine; "
-        "every non-minimal entry comes with a witness circuit validated by the spec and shown against the real classifier and API. 570 genuine non-minimal six-qubit entries are known findings.",
+        "every non-minimal entry comes with a witness circuit validated by the spec and shown against the real classifier and API; the DELIVERED circuits (real API, table-line states and rotated members) are measured against the same minimum. "
+        "570 genuine non-minimal six-qubit entries are known findings.",
    note=TLC_BASE + "; commutation / deferral argument in Optimality.tla; quick tier uses the 3-coset reduction (validated against the full 36 choices in the thorough tier)", ref="4.6, 5 (C05), 6"),
  "C06": dict(cat="model_checking", tech="TLC exhaustive orbit models (LCOrbits: all graphs n<=6; LCGroups: all stabilizer groups n<=5, n=6 thorough) + replay of every state into the classifier + trace validation",
    text="Classes are defined in the spec as connected components under local complementation / local H,S; TLC establishes K=2,5,18,93,760 and that the support-set key is complete; every graph (n<=6) and every group (n<=4 quick, n<=5 thorough) "
@@ -60,7 +63,8 @@ CHECKS = {
    note=TLC_BASE + "; linearity (see C10)", ref="5 (C12)"),
  "C13": dict(cat="model_checking", tech="TLA+ model of caches/aliases/mutations (CacheAlias.tla) with alias facts extracted from the running code; TLC decides Pure, dumps the state graph and random walks; every behaviour replayed in forked cold-cache children",
    text="TLC decides invariant Pure under the extracted alias relation (a counterexample is the shortest violating history, replayed against the real code); every labelled transition of the abstract state graph and long random histories are replayed with the projected state "
-        "(loaded files, dirty cached fields, purity) compared after each step; results compared with a pristine reference from three fresh interpreters.",
+        "(loaded files, dirty cached fields, purity) compared after each step; results compared with a pristine reference from three fresh interpreters. "
+        "The caller keeps its argument objects, results and a fitter for the whole history, edits its own arguments (EditArg), and any held, untouched result that changes later is reported.",
    note="TLC; generic mutation walker and canonical serialisation in hv/history.py; attribute rebinding on library objects is out of scope (property speaks of lists/circuits/dictionaries)", ref="5 (C13)"),
  "C14": dict(cat="model_checking", tech="denotations defined in TLA+ (FromChars, FromMatrices, GraphGens, tableau machine); denote records judged by TLC",
    text="All 1024 signed two-qubit lists, seeded lists n<=6, all 1080 three-qubit states, all graphs n<=5 (n=6 thorough), TLC behaviours as circuits: generator-for-generator equality, exact string round trip and mirror image, signed-group equality for circuits.",
